@@ -184,7 +184,7 @@ pub fn c09_spec<'a>(ctx: &Ctx) -> Spec<'a> {
         rule: "all executions of C06-C08's two domains (pipeline programs and directly generated linear programs biased to sharing, dropping, destructive and non-destructive loads, multi-block objects, closures capturing shared objects) on all three backends (RISC-V: print-free); at every statement-boundary marker the heap auditor checks: every block below the frontier is in exactly one of {reachable from the live variables, on the reusable list, on the deferred list, waiting beneath a deferred block}; lists acyclic and disjoint; stored count of every reachable/waiting block = references from live variables and from fields of reachable/deferred/waiting blocks - 1; nothing above the frontier written; plus the emulator's memory discipline (no access outside heap and own frame). Non-trivial: the run saw a count > 0, a non-empty deferred list or a multi-block chain; distinct by hash of (program, arguments, backend).",
         archs: &[Arch::X86, Arch::A64, Arch::Rv],
         n_fun: ctx.tier.pick(500, 40000),
-        n_lin: ctx.tier.pick(800, 80000),
+        n_lin: ctx.tier.pick(2400, 80000),
         with_audit: true,
         lin_cfg: &c09_lin_cfg,
         post: &|_, _| None,
@@ -204,7 +204,7 @@ pub fn c10_spec<'a>(ctx: &Ctx) -> Spec<'a> {
         rule: "oracle 1: every audited execution (as C09, all backends): the allocation frontier never lies more than 3 blocks above the peak number of blocks reachable at a statement boundary (bound derived from acquire_block: fresh memory is taken only when both free lists are empty, so at a bump everything below the frontier is reachable, under construction, or the block just acquired), and nothing above the frontier is ever written. oracle 2 (families): loops of n, 4n, 16n iterations building and dropping lists, trees, closure chains and shared structures must reach the same highest written heap address. Non-trivial (oracle 1): the run reused a block (reusable list > 1 or deferred list used) and peak reachable >= 3; (oracle 2): >= 64 iterations with >= 8 live blocks each.",
         archs: &[Arch::X86, Arch::A64, Arch::Rv],
         n_fun: ctx.tier.pick(400, 30000),
-        n_lin: ctx.tier.pick(500, 40000),
+        n_lin: ctx.tier.pick(1800, 40000),
         with_audit: true,
         lin_cfg: &c09_lin_cfg,
         post: &|_, r| heapcheck::footprint_ok(&r.audit).err(),
